@@ -638,8 +638,8 @@ func TestCheck(t *testing.T) {
 		if err := vh.LoadReplayCase(env.Replay, &c); err != nil {
 			t.Fatal(err)
 		}
-		if c.BigN > 0 {
-			runBig(t, run, BigCase{N: c.BigN})
+		if c.BigN != 0 {
+			bigPart(t, env, run, &BigCase{N: c.BigN})
 		} else if c.Sys == nil {
 			cases = append(cases, c)
 		}
